@@ -689,6 +689,34 @@ impl<'g> CallRun<'g> {
                     self.poll_once();
                 }
             }
+            CallEvKind::Tokio => {
+                if self.status == Status::Pending {
+                    if let Some(fut) = self.fut.take() {
+                        let res = catch_unwind(AssertUnwindSafe(|| {
+                            let rt = tokio::runtime::Builder::new_current_thread()
+                                .enable_time()
+                                .build()
+                                .expect("tokio runtime");
+                            rt.block_on(async move {
+                                tokio::time::timeout(std::time::Duration::from_secs(3), fut).await
+                            })
+                        }));
+                        match res {
+                            Ok(Ok(out)) => {
+                                self.status = Status::Returned;
+                                self.out = Some(out);
+                            }
+                            // not returned within the budget although every user future is ready
+                            Ok(Err(_)) => self.ended = true,
+                            Err(_) => {
+                                self.status = Status::Panicked;
+                                self.ended = true;
+                            }
+                        }
+                    }
+                }
+                settle = false;
+            }
             CallEvKind::Abort => {
                 if self.status == Status::Pending {
                     self.status = Status::Aborted;
@@ -973,6 +1001,7 @@ impl<'g> StreamRun<'g> {
                 self.signal_sent = true;
                 self.flag_tok()
             }
+            SEv::Tokio(_) => "-".to_string(), // handled by `run_stream_tokio`
             SEv::DropStream => {
                 if let Some(s) = self.stream.take() {
                     if catch_unwind(AssertUnwindSafe(move || drop(s))).is_err() {
@@ -1077,6 +1106,10 @@ fn run_stream_events(
     lines: &mut Vec<String>,
     flags: &mut RtFlags,
 ) {
+    if let [SEv::Tokio(hold)] = evs {
+        run_stream_tokio(id, prefix, g, cfg, *hold, lines, flags);
+        return;
+    }
     let mut run = StreamRun::new(g, cfg);
     for ev in evs {
         if run.stopped() {
@@ -1091,6 +1124,116 @@ fn run_stream_events(
     flags.panic |= z == "Z X";
     lines.push(format!("OBS {id} {prefix}{z}"));
     lines.push(format!("OBS {id} {prefix}{t}"));
+}
+
+/// `t<k>`: the stream is consumed inside a tokio current-thread runtime (cooperative budget active)
+/// by a consumer that never yields voluntarily: it takes items as long as the stream gives them,
+/// holding at most `hold` FnRefs (oldest dropped first); on `Pending` it drops a held FnRef, or – if
+/// it holds none – awaits the stream (2 s budget: a stream that is stalled never wakes it).
+/// What happened is written as the expanded event list (`EV`) with one `e<k>` line per event, in
+/// the format of the controlled runs.
+fn run_stream_tokio(
+    id: u64,
+    prefix: &str,
+    g: &FnGraph<Fun>,
+    cfg: &StreamCfg,
+    hold: usize,
+    lines: &mut Vec<String>,
+    flags: &mut RtFlags,
+) {
+    use std::collections::VecDeque;
+    let (_tx, rx) = mpsc::channel::<InterruptSignal>(16);
+    let takes_opts = cfg.int || cfg.rev || cfg.strat != Strat::Non;
+    let rx_lib = if takes_opts && cfg.strat != Strat::Non {
+        Some(rx)
+    } else {
+        None
+    };
+    let stream = make_stream(g, cfg, rx_lib);
+    let log: Rc<RefCell<(Vec<String>, Vec<String>, Vec<Tok>)>> = Rc::new(RefCell::new((Vec::new(), Vec::new(), Vec::new())));
+    let log2 = log.clone();
+    let res = catch_unwind(AssertUnwindSafe(move || {
+        let rt = tokio::runtime::Builder::new_current_thread()
+            .enable_time()
+            .build()
+            .expect("tokio runtime");
+        rt.block_on(async move {
+            let mut stream = stream;
+            let mut held: VecDeque<FnRef<'_, Fun>> = VecDeque::new();
+            let push = |ev: String, ob: String| {
+                let mut l = log2.borrow_mut();
+                l.0.push(ev);
+                l.1.push(ob);
+            };
+            loop {
+                let polled = match futures::poll!(stream.next()) {
+                    Poll::Ready(item) => Some(item),
+                    Poll::Pending => {
+                        if let Some(r) = held.pop_front() {
+                            let i = r.idx;
+                            log2.borrow_mut().2.push(Tok::End(i, true));
+                            drop(r);
+                            push(format!("d{i}"), "W-".to_string());
+                            continue;
+                        }
+                        match tokio::time::timeout(std::time::Duration::from_secs(2), stream.next()).await {
+                            Ok(item) => Some(item),
+                            Err(_) => None,
+                        }
+                    }
+                };
+                match polled {
+                    None => {
+                        push("n".to_string(), "P W0".to_string());
+                        break;
+                    }
+                    Some(None) => {
+                        push("n".to_string(), "N W-".to_string());
+                        break;
+                    }
+                    Some(Some(SItem::Yield(r))) => {
+                        let i = r.idx;
+                        log2.borrow_mut().2.push(Tok::Start(i));
+                        push("n".to_string(), format!("Y{i} W-"));
+                        held.push_back(r);
+                        while held.len() > hold {
+                            if let Some(r) = held.pop_front() {
+                                let i = r.idx;
+                                log2.borrow_mut().2.push(Tok::End(i, true));
+                                drop(r);
+                                push(format!("d{i}"), "W-".to_string());
+                            }
+                        }
+                    }
+                    Some(Some(SItem::Interrupted(o))) => {
+                        match o {
+                            Some(r) => {
+                                let i = r.idx;
+                                log2.borrow_mut().2.push(Tok::Start(i));
+                                push("n".to_string(), format!("I{i} W-"));
+                                held.push_back(r);
+                            }
+                            None => push("n".to_string(), "I- W-".to_string()),
+                        }
+                        break;
+                    }
+                }
+            }
+            drop(held);
+            drop(stream);
+        })
+    }));
+    let l = log.borrow();
+    lines.push(format!(
+        "OBS {id} {prefix}EV {}",
+        if l.0.is_empty() { "-".to_string() } else { l.0.join(" ") }
+    ));
+    for (k, ob) in l.1.iter().enumerate() {
+        lines.push(format!("OBS {id} {prefix}e{k} {ob}"));
+    }
+    flags.panic |= res.is_err();
+    lines.push(format!("OBS {id} {prefix}Z {}", if res.is_ok() { "ok" } else { "X" }));
+    lines.push(format!("OBS {id} {prefix}T {}", fmt_trace(&l.2)));
 }
 
 /// Builds the graph of a runtime case (`None` if an op or `build()` panicked).
